@@ -12,7 +12,7 @@ EXPLANATION = (
     "per (pair kind, type) decides it for all values: a shared list/dict would carry A's symbolic value into B's snapshot."
 )
 BOUNDS = {"quick": {"types": "all 43 types x {fresh instance, clone (both directions), loaded from the same bytes}", "mutations": "every range controller (symbolic), every bool/enum controller and option (flipped), CMID, common settings, 3 payload positions per array, sampler/metamodule specifics",
-                    "projects": "two projects: modules, links, patterns, notes; Project.clone()"},
+                    "projects": "two projects: modules, links, patterns, notes; Project.clone()", "legacy samplers": "a REF-ENC legacy instrument loaded as B, a second legacy and a modern instrument loaded and mutated afterwards"},
           "thorough": {"types": "as quick", "mutations": "as quick with 8 payload positions", "projects": "as quick"}}
 OUTSIDE = ["state reachable only through private attributes", "sequences of mutations longer than one pass over all attribute groups"]
 ASSUMPTIONS = []
